@@ -28,6 +28,7 @@ state).  The singleton blocks (`phasing._block_singletons`) are NOT covered by a
 cluster); the harness checks them against a naive per-tree tally.
 -/
 import TsdateVerif.Proofs.CountMutMain
+import TsdateVerif.Model.Blocks
 
 namespace Tsdate.C24
 open Tsdate Tsdate.Sweep Tsdate.CountMut
@@ -219,12 +220,53 @@ theorem span_array_agrees (T : Tables α) (M : Muts α) (isSample : Array Bool)
     unfold spanColumn
     simp [he]
 
-/-! ### Scope
+/-! ### Scope, and the singleton-block clause
 
 `count_plain_spec` and `count_sizebiased_spec` together are the full C24 statement for the kernel
-`_count_mutations` (mutations, spans, frequency weights, custom sample sets).  The singleton-block clause
-(`phasing._block_singletons`) is *not* modelled here: it belongs to the blocks model of C22/C23; this
-check covers it by the per-tree oracle only. -/
+`_count_mutations` (mutations, spans, frequency weights, custom sample sets).
+
+The singleton-block clause ("blocks hold exactly the span over which the individual's two leaf branches
+stay the same and the number of singletons in it") is about `phasing._block_singletons`, whose model
+`Blocks.blockSingletons` belongs to the C22/C23 cluster (tied there bit-for-bit to the numba kernel).
+This check covers the clause by the per-tree oracle, which found that it is **false when one of the two
+leaf nodes of an unphased individual is isolated over part of the sequence** (missing data on one
+haplotype).  The two theorems below are the negation on concrete witnesses, serialised from the tskit
+tables of the two replays in `known_findings.d/C24.json` (edge table in tskit order with tskit's own
+indexes; positions in `ℕ`). -/
+
+/-- Individual 0 = nodes 0, 1; node 1 has no edge on `[0,4)`.  Mutations on node 0 at 2 and at 6. -/
+def blkW1 : Blocks.Input Nat :=
+  { unphased := #[true, true], nodeInd := #[some 0, some 0, some 1, some 1, none],
+    child := #[0, 1, 2, 3], left := #[0, 4, 0, 0], right := #[10, 10, 10, 10],
+    insOrder := #[0, 2, 3, 1], remOrder := #[3, 2, 1, 0], seqLen := 10,
+    mutNode := #[0, 2, 0, 3], mutPos := #[2, 3, 6, 7] }
+
+/-- **Counter-example to the count clause.**  The block of individual 0 is reported with span 6 (its
+two leaf edges coexist on `[4,10)`: correct) and **2** singletons, although only **one** mutation of
+the individual lies in `[4,10)`: the mutation at position 2, where the individual has a single leaf
+branch, is counted into (and assigned to) the block that starts at 4. -/
+theorem block_count_counterexample :
+    (Blocks.blockSingletons blkW1 0).map (fun o => (o.stats, o.edges, o.mblock)) =
+        some ([(2, some 6), (2, some 10)], [(1, 0), (3, 2)], #[some 0, some 1, some 0, some 1]) ∧
+    ((List.range 4).countP fun m =>
+        aget blkW1.nodeInd (aget blkW1.mutNode m) == some 0 &&
+        decide (4 ≤ aget blkW1.mutPos m) && decide (aget blkW1.mutPos m < 10)) = 1 := by
+  decide +kernel
+
+/-- Individual 0 = nodes 0, 1; node 1 has an edge on `[0,4)` only; node 0 changes parent at 6. -/
+def blkW2 : Blocks.Input Nat :=
+  { unphased := #[true, true], nodeInd := #[some 0, some 0, some 1, some 1, none, none],
+    child := #[0, 1, 2, 3, 0, 4], left := #[0, 0, 0, 0, 6, 6], right := #[6, 4, 10, 10, 10, 10],
+    insOrder := #[0, 1, 2, 3, 4, 5], remOrder := #[1, 0, 5, 4, 3, 2], seqLen := 10,
+    mutNode := #[0, 2, 0, 3], mutPos := #[2, 3, 7, 8] }
+
+/-- **Counter-example to "every input".**  On this well-formed input the kernel's closing assertion
+`num_blocks == blocks_edges.shape[0]` fails (the model returns `none`; numba raises a bare
+`AssertionError`, also through `tsdate.date(ts, singletons_phased=False)`): a block id is handed out when
+node 0's new edge is inserted at 6 while its partner has no edge, and that block is never flushed. -/
+theorem block_assertion_counterexample :
+    Blocks.wellFormed blkW2 = true ∧ (Blocks.blockSingletons blkW2 0).isNone = true := by
+  decide +kernel
 
 /-! ### Non-vacuity (exact rationals)
 
